@@ -218,6 +218,8 @@ class Evaluator:
             return _copy.copy(args[0]) if name == "copy.copy" else _copy.deepcopy(args[0])
         if name == "collections.deque":
             return deque(self._iterate(args[0], node)) if args else deque()
+        if name in ("warnings.warn", "print"):
+            return None  # diagnostics only
         raise NotEvaluable(f"external call {name} is outside the index domain")
 
     def instantiate(self, cls, args: List[Any], kwargs: Optional[Dict[str, Any]] = None):
@@ -812,7 +814,21 @@ class Evaluator:
         return [items[i] for i in order]
 
     def _e_JoinedStr(self, n):
-        return "<f-string>"  # message text only; its parts are deliberately not evaluated
+        out = []
+        for part in n.values:
+            if isinstance(part, ast.Constant):
+                out.append(str(part.value))
+                continue
+            try:
+                v = self.eval(part.value)
+                spec = self._e_JoinedStr(part.format_spec) if part.format_spec is not None else ""
+                if isinstance(v, (int, float, str)) and not isinstance(v, bool):
+                    out.append(format(v, spec))
+                else:
+                    out.append(str(v))
+            except (NotEvaluable, ValueError, TypeError):
+                out.append("<?>")  # message text whose parts lie outside the index domain
+        return "".join(out)
 
     def _e_Call(self, n: ast.Call):
         name = attr_chain(n.func)
@@ -863,6 +879,20 @@ class Evaluator:
             if not stack or stack[-1][0] is None or not isinstance(stack[-1][1], Obj):
                 raise NotEvaluable("super() outside a method evaluated on a symbolic object")
             return SuperRef(stack[-1][1], stack[-1][0])
+        if name in ("getattr", "hasattr") and len(n.args) >= 2:
+            target = self.eval(n.args[0])
+            attr = self.eval(n.args[1])
+            if isinstance(target, Obj) and isinstance(attr, str):
+                try:
+                    val = self.obj_attr(target, attr)
+                    return True if name == "hasattr" else val
+                except NotEvaluable:
+                    if name == "hasattr":
+                        return False
+                    if len(n.args) > 2:
+                        return self.eval(n.args[2])
+                    raise Raised("AttributeError") from None
+            raise NotEvaluable(f"{name}() on a non-object")
         if name == "isinstance" and len(n.args) == 2:
             return self._isinstance(self.eval(n.args[0]), n.args[1])
         if isinstance(n.func, ast.Name) and isinstance(self.env.get(n.func.id), Bound):
